@@ -59,6 +59,10 @@ MODELS = {
     # infeasible in a way bound consistency cannot see (x1 = x0 and x1 != x0) next to a free variable: shaving has to refute the values
     # one by one, each refuted probe leaves pending propagators behind
     "eq_diff_free": dict(doms=3, vars=[(0, 0), (1, 0), (2, 0)], props=[([0, 1], "min_eq", []), ([1, 0], "alldifferent", [])], D=3),
+    # |x0 - x1| <= 1 written as two constraints of the same type with the same parameters on the same variables in a different order;
+    # two different constraints of one type on the same variables
+    "abs_diff": dict(doms=2, vars=[(0, 0), (1, 0)], props=[([0, 1], "affine_leq", [1, -1, 1]), ([1, 0], "affine_leq", [1, -1, 1])]),
+    "two_leq": dict(doms=2, vars=[(0, 0), (1, 0)], props=[([0, 1], "affine_leq", [1, 1, S]), ([0, 1], "affine_leq", [2, -1, S])]),
     "free2": dict(doms=2, vars=[(0, 0), (1, 0)], props=[]),
     "dummy_only": dict(doms=2, vars=[(0, 0), (1, "o0")], props=[([0, 1], "dummy", [])]),
     "obj_under_leq": dict(doms=2, vars=[(0, 0), (1, 0)], props=[([0, 1], "affine_leq", [1, 1, S])]),
@@ -511,6 +515,7 @@ def make(model, cfg=None, mode="solve", select=("C01", "C02"), order=None, objec
             ghost.install()
         sols = []
         kept = []
+        refused = []
         best = None
         stats = None
         reg_lens = (len(P.COMPUTE_DOMAINS_FCTS), len(P.GET_TRIGGERS_FCTS), len(P.GET_COMPLEXITY_FCTS), len(H.DOM_HEURISTIC_FCTS), len(H.VAR_HEURISTIC_FCTS), len(CA.CONSISTENCY_ALG_FCTS))
@@ -556,6 +561,15 @@ def make(model, cfg=None, mode="solve", select=("C01", "C02"), order=None, objec
                         if len(stream) > 1 and E.query(imp):
                             report("C11" if "C11" in select else "C03", "worker-stream-not-strictly-improving", E.model())
             stats = solver.get_statistics()
+        except ValueError as ex:
+            # decision domains that do not determine every variable: the search may legitimately end by REFUSING to go on
+            # (the source raises); nothing has been reported to the caller beyond what is judged below
+            if not cfg.get("underdetermined") or not ("stack" in str(ex) or "decision domains" in str(ex)):
+                raise
+            E.acc.count("refused:" + str(ex)[:40])
+            refused.append(True)
+            if mode != "solve":
+                return
         except Obligation as o:
             E.acc.count("obligation:" + o.kind)
             prefer = ["C16"] + (["C03"] if mode not in ("solve", "solve_q") else []) + ["C01", "C04", "C02", "C17", "C08", "C15", "C07"]
@@ -676,6 +690,8 @@ def make(model, cfg=None, mode="solve", select=("C01", "C02"), order=None, objec
                 report("C15", "control-flow-depends-on-uninitialised-memory", None, cells=dep[:5], modes=["interpreted"])
             return  # no witness for the per-path validation: the real memory content is not the solver's choice
         # ------------------------------------------------------------------ witness for validation
+        if refused:
+            return  # the real run raises as well (not compared: the validation batch expects a completed run)
         if E.check():
             m = E.model()
             w = wit(m)
